@@ -286,8 +286,8 @@ func TestVerif_C10_Select(t *testing.T) {
 	r := verifkit.Start(t, "C10", "select")
 	defer r.Finish()
 	r.SetRule("random seat layouts (1 seat each, 2/2/1, one whale, 100 seats/30 operators, few operators, random; 5..100 seats), ready sets from threshold/quorum to all seats, attempts 1..40, random messages/seeds of 1..32 bytes; every member index evaluates performMembersSelection on its own permutation of the ready list. non-trivial = some operator holds > 1 seat, the ready set is not all seats and the selection succeeded")
-	nSign := r.N(1500, 75000)
-	nDkg := r.N(1500, 75000)
+	nSign := r.N(1500, 40000)
+	nDkg := r.N(1500, 40000)
 	total := nSign + nDkg
 	var members, selErrs, attempt1 int64
 	var mu sync.Mutex
@@ -435,7 +435,7 @@ func TestVerif_C10_Loop(t *testing.T) {
 	r := verifkit.Start(t, "C10", "loop")
 	defer r.Finish()
 	r.SetRule("the real signingRetryLoop.start / dkgRetryLoop.start of ALL members of a group run through 2..6 failing attempts (block waits return at once); per attempt a fresh ready set, reported to each member in its own order; observed: excluded list handed to the attempt function, included list handed to the done check. non-trivial = multi-seat operators and some attempt with a ready set that is not all seats")
-	nCases := r.N(160, 6000)
+	nCases := r.N(160, 4000)
 	var loops int64
 	var mu sync.Mutex
 	verifkit.Parallel(nCases, 0, func(i int) {
